@@ -65,7 +65,17 @@ def values_of(extra, n):
 def fit_labels(cls):
     def f(a, ex):
         alg = cls(**ex.get('params', {}))
-        alg.fit(a, labels_of(ex, a.shape[0]))
+        if 'labels_row' in ex or 'labels_col' in ex:
+            kw = {}
+            if ex.get('labels_row') is not None:
+                kw['labels_row'] = {int(k): int(v) for k, v in ex['labels_row'].items()}
+            if ex.get('labels_col') is not None:
+                kw['labels_col'] = {int(k): int(v) for k, v in ex['labels_col'].items()}
+            alg.fit(a, **kw)
+        elif ex.get('labels_vec') is not None:
+            alg.fit(a, np.array(ex['labels_vec']))
+        else:
+            alg.fit(a, labels_of(ex, a.shape[0]))
         return len(alg.labels_)
     return f
 
@@ -81,7 +91,10 @@ def fit_values(cls):
 def fit_plain(cls, out):
     def f(a, ex):
         alg = cls(**ex.get('params', {}))
-        alg.fit(a)
+        if ex.get('force_bipartite'):
+            alg.fit(a, force_bipartite=True)
+        else:
+            alg.fit(a)
         return np.shape(getattr(alg, out))
     return f
 
@@ -195,7 +208,7 @@ def _rec(v):
     if hasattr(v, 'shape') and len(v.shape) >= 1:
         arr = np.asarray(v)
         return {'len': int(arr.shape[0]),
-                'ints': arr.tolist() if arr.dtype.kind in 'iub' and arr.size <= 400 else None}
+                'ints': arr.tolist() if arr.dtype.kind in 'iub' and arr.size <= 4000 else None}
     if isinstance(v, (bool, np.bool_)):
         return {'int': int(v)}
     if isinstance(v, (int, np.integer)):
